@@ -13,7 +13,7 @@ import (
 	minttypes "github.com/sentinel-official/hub/v12/x/mint/types"
 )
 
-var lineRE = regexp.MustCompile(`^pb (sentinel\.[A-Za-z0-9_.]+) (.*) => (-|[0-9a-f]+|err:\S+) rt=(1|0|err:\S+) strict=([01]) json_rt=(1|0|err:\S+)$`)
+var lineRE = regexp.MustCompile(`^pb (sentinel\.[A-Za-z0-9_.]+) (.*) => (-|[0-9a-f]+|err:\S+) rt=(1|0|err:\S+) strict=([01]) json_rt=(1|0|err:\S+) json=(-|err:\S+|\{\S*\})$`)
 
 // Every emitted line has the documented shape, its value text parses with the
 // strict grammar, and (checked inside Run) re-encodes to the real wire bytes.
@@ -23,6 +23,11 @@ func TestLinesWellFormed(t *testing.T) {
 		t.Fatal(err)
 	}
 	lines := strings.Split(strings.TrimSuffix(out.String(), "\n"), "\n")
+	// the header: what the interface registry resolves
+	if !strings.HasPrefix(lines[0], "anytypes sentinel.") || !strings.Contains(lines[0], " sentinel.subscription.v2.NodeSubscription ") {
+		t.Fatalf("header malformed: %.300s", lines[0])
+	}
+	lines = lines[1:]
 	if len(lines) != 4000 {
 		t.Fatalf("got %d lines", len(lines))
 	}
@@ -70,6 +75,18 @@ func TestParserRejects(t *testing.T) {
 		if _, err := ParseText(good); err != nil {
 			t.Errorf("rejected %q: %v", good, err)
 		}
+	}
+}
+
+// The canonical JSON text shared with the Lean model (`Json.render`).
+func TestCanonicalJSON(t *testing.T) {
+	got, err := CanonicalJSON([]byte(`{"b": [1, -2, "x y", "é"], "a": {"@type": "/t.T", "n": null, "ok": true}, "id": "18446744073709551615", "e": ""}`))
+	if err != nil {
+		t.Fatal(err)
+	}
+	want := `{"a":{"@type":"/t.T","n":null,"ok":true},"b":[1,-2,x782079,xc3a9],"e":"","id":"18446744073709551615"}`
+	if got != want {
+		t.Fatalf("got  %s\nwant %s", got, want)
 	}
 }
 
